@@ -6,3 +6,9 @@ From Gen Require Import Tables.
 Definition gen_ftables : ftables := {|
   ft_base := gen_tables; t_poll := g_poll; t_drain_pend := g_drain_pend; t_roj_pend := g_roj_pend; t_roj_park := g_roj_park;
   t_wake_queue := g_wake_queue; t_wake_thread := g_wake_thread; t_dw_wake := g_dw_wake; t_dw_wake_with := g_dw_wake_with |}.
+(* the order facts of Model.ffacts as read from the source (located patterns of the table generator) *)
+Definition gen_ffacts : ffacts := {|
+  f_park_before_wake_with := fact_drain_queue_parks_before_wake_with;
+  f_requeue_before_park := fact_drain_queue_requeues_pending && fact_drain_queue_requeue_first;
+  f_future_drop_inert := fact_schedfuture_drop_inert;
+  f_wake_thread_unparks_always := fact_wake_thread_unparks_always |}.
